@@ -2,6 +2,7 @@ package checks
 
 import (
 	"fmt"
+	corev1 "k8s.io/api/core/v1"
 	"testing"
 
 	"sigs.k8s.io/controller-runtime/pkg/client"
@@ -81,22 +82,13 @@ func TestC02(t *testing.T) {
 				return
 			}
 			st := batch[i]
-			r := w.Closure(t, st.sc, st.s, w.ClosureOpts{Validate: true, Resume: true})
-			run.Count("closures", 1)
-			replay := func() interface{} {
-				r2 := w.Closure(t, st.sc, st.s, w.ClosureOpts{Validate: true, Resume: true, Trace: true})
-				return map[string]interface{}{"scenario": st.sc.Name, "start_state": st.s.Describe(), "closure_trace": r2.Trace, "final_state": r2.Final.Describe()}
+			opts := []w.ClosureOpts{{Validate: true, Resume: true}}
+			if len(st.s.ERSs()) > 1 && (len(st.s.Backoff) > 0 || hasFailedPod(st.s)) {
+				// the failed-pod back-off is in-memory state shared by the syncs of all replica sets: both orders
+				opts = append(opts, w.ClosureOpts{Validate: true, Resume: true, ReverseERS: true})
 			}
-			if !r.Converged {
-				run.Violate(h.Violation{Signature: "C02/converge: fair reconciliation does not reach a lasting fixpoint: " + classify(r.Why), Monitor: "C02/closure", Message: r.Why, Replay: replay()})
-				return
-			}
-			run.Count("antecedent:C02/fixpoint", 1)
-			run.Nontrivial(fmt.Sprintf("rounds:%s:%d", st.sc.Name, r.Rounds))
-			for _, e := range r.Final.EDSs() {
-				if sig, msg := w.CheckConverged(r.Final, e.Namespace, e.Name); sig != "" {
-					run.Violate(h.Violation{Signature: sig, Monitor: "C02/fixpoint", Message: msg, Replay: replay()})
-				}
+			for _, o := range opts {
+				c02Closure(t, run, st.sc, st.s, o)
 			}
 		})
 	}
@@ -120,7 +112,46 @@ func TestC02(t *testing.T) {
 	}
 	requireAntecedents(run, "C02/fixpoint")
 	run.Cov["evaluations"] = run.Counter("closures")
-	exit(run.Finish(fmt.Sprintf("BFS of scenarios S1-S5 (first deployment, rolling updates with several configurations, auto and manual canaries incl. failure, DaemonSet migration) with template/annotation/node/pod deviations; from every %d-th reached state (every state in thorough) the deterministic fair closure is run and must reach a lasting fixpoint with one Ready live-template pod per eligible node; non-trivial = distinct (scenario, rounds-to-fixpoint)", every)))
+	exit(run.Finish(fmt.Sprintf("BFS of scenarios S1-S7 (first deployment, rolling updates with several configurations, auto and manual canaries incl. failure and edits of the canary block, DaemonSet migration, setting + node override) with template/annotation/node/pod deviations; from the first 2000 states of each scenario and every %d-th after (every state in thorough) the deterministic fair closure is run (both replica-set orders when a failed-pod back-off is pending) and must reach a lasting fixpoint with one Ready live-template pod per eligible node; non-trivial = distinct (scenario, rounds-to-fixpoint)", every)))
+}
+
+func hasFailedPod(s *w.State) bool {
+	for _, p := range s.Pods() {
+		if p.Status.Phase == corev1.PodFailed && p.DeletionTimestamp == nil {
+			return true
+		}
+	}
+	return false
+}
+
+func c02Closure(t *testing.T, run *h.Run, sc *w.Scenario, s *w.State, o w.ClosureOpts) {
+	{
+		{
+			st := struct {
+				sc *w.Scenario
+				s  *w.State
+			}{sc, s}
+			r := w.Closure(t, st.sc, st.s, o)
+			run.Count("closures", 1)
+			replay := func() interface{} {
+				o2 := o
+				o2.Trace = true
+				r2 := w.Closure(t, st.sc, st.s, o2)
+				return map[string]interface{}{"scenario": st.sc.Name, "start_state": st.s.Describe(), "reverse_replica_set_order": o.ReverseERS, "closure_trace": r2.Trace, "final_state": r2.Final.Describe()}
+			}
+			if !r.Converged {
+				run.Violate(h.Violation{Signature: "C02/converge: fair reconciliation does not reach a lasting fixpoint: " + classify(r.Why), Monitor: "C02/closure", Message: r.Why, Replay: replay()})
+				return
+			}
+			run.Count("antecedent:C02/fixpoint", 1)
+			run.Nontrivial(fmt.Sprintf("rounds:%s:%d", st.sc.Name, r.Rounds))
+			for _, e := range r.Final.EDSs() {
+				if sig, msg := w.CheckConverged(r.Final, e.Namespace, e.Name); sig != "" {
+					run.Violate(h.Violation{Signature: sig, Monitor: "C02/fixpoint", Message: msg, Replay: replay()})
+				}
+			}
+		}
+	}
 }
 
 func classify(why string) string {
